@@ -200,7 +200,21 @@ async def run_prog(table, pid, tag):
             seen.append(v)
             sim.ev('saw', tag, ins[1], 'n', v, rt._id)
         elif op == 'c':
-            sim.ev('cancel', tag, ins[1], rt._id)
+            # which slots of the future have no result yet (read before the
+            # call): the oracle `cancel-skips-unfinished-slot` needs them
+            mb = getattr(futs[ins[1]], 'mailbox_id', None)
+            box = getattr(rt, '_mailboxes', {}).get(mb)
+            unfinished = None
+            try:
+                if box is not None and box.expecting_single_result:
+                    unfinished = (0,) if box.num_results == 0 else ()
+                elif box is not None:
+                    unfinished = tuple(
+                        s for s in range(box.expected_num_results)
+                        if box.result[s] is None)
+            except Exception:
+                unfinished = None
+            sim.ev('cancel', tag, ins[1], rt._id, mb, unfinished)
             rt.cancel(futs[ins[1]])
         elif op == 'x':
             sim.ev('raise', tag)
